@@ -53,7 +53,7 @@ def programs(tier):
         yield {"tag": f"explicit-late-{k}", "pre": pre, "untyped": us,
                "body": [("decl", "Bundle", "bb", ("bundle", items)), ("decl", "Bundle", "r", B("+", V("bb"), I(1)))],
                "outputs": ["r"], "k": k}
-    ks = (27, 40) if tier == "quick" else (27, 40, 80, 120)
+    ks = (27, 40, 80) if tier == "quick" else (27, 40, 80, 120, 145)
     for k in ks:
         us = [f"u{i}" for i in range(1, k + 1)]
         items = [V("a")] + [V(u) for u in us]
